@@ -6,7 +6,10 @@ use quote::{ToTokens, format_ident, quote};
 
 use super::{Visibility, enums::ResponseEnumFragment};
 use crate::generator::{
-  ast::{ContentCategory, HandlerBodyInfo, ResponseEnumDef, ResponseVariant, ServerRequestTraitDef, ServerTraitMethod},
+  ast::{
+    ContentCategory, HandlerBodyInfo, ResponseEnumDef, ResponseVariant, RustPrimitive, ServerRequestTraitDef,
+    ServerTraitMethod,
+  },
   codegen::http::HttpStatusCode,
 };
 
@@ -164,7 +167,27 @@ impl ToTokens for AxumIntoResponseVariant {
     let variant = &self.0.variant_name;
     let status_code = HttpStatusCode::new(self.0.status_code);
 
-    let ts = if self.0.schema_type.is_some() {
+    // A payload goes out in the representation of the media type the variant was
+    // declared with: a `String` declared as text and raw bytes declared as binary are
+    // written as they are (axum then labels them text/plain and
+    // application/octet-stream); everything else is JSON.
+    let raw_payload = self.0.schema_type.as_ref().is_some_and(|ty| {
+      let declared = self.0.media_types.first().map(|m| m.category);
+      !ty.nullable
+        && !ty.is_array
+        && !ty.boxed
+        && match declared {
+          Some(ContentCategory::Text) => ty.is_string_like(),
+          Some(ContentCategory::Binary) => matches!(ty.base_type, RustPrimitive::Bytes),
+          _ => false,
+        }
+    });
+
+    let ts = if raw_payload {
+      quote! {
+        Self::#variant(data) => (#status_code, data).into_response()
+      }
+    } else if self.0.schema_type.is_some() {
       quote! {
         Self::#variant(data) => (#status_code, axum::Json(data)).into_response()
       }
